@@ -237,7 +237,7 @@ fn deblock_vert(result: &mut [u8], width: usize, strength: u8) {
     if width >= 10 {
         // Handling the top N*8 rows with the SIMD implementation,
         // iterating on 8 (the SIMD width) rows worth of data at a time.
-        for rows in result.chunks_exact_mut(width * 8) {
+        for rows in result.chunks_exact_mut(width.saturating_mul(8)) {
             // Splitting into separate rows (doing it this way to satisfy the borrow checker),
             // each row will supply one SIMD lane.
             let (row_0, rows) = rows.split_at_mut(width);
@@ -288,7 +288,7 @@ fn deblock_vert(result: &mut [u8], width: usize, strength: u8) {
         // with a similar iteration pattern as above, but with one row at a time, not in
         // parallel over an octet of rows.
         for row in result
-            .chunks_exact_mut(width * 8)
+            .chunks_exact_mut(width.saturating_mul(8))
             .into_remainder()
             .chunks_exact_mut(width)
         {
